@@ -10,7 +10,7 @@ RULES = [
     ("AbstractPathModelDAG", r"_apply_safety", r".*", ["C05"]),
     ("AbstractWalkModelDiGraph", r"_encode_walks", r".*", ["C01"]),
     ("AbstractWalkModelDiGraph", r"_encode_walks", r"add_variables:self\.edge_vars|22a", ["C04"]),
-    ("AbstractWalkModelDiGraph", r"_encode_subset_constraints", r".*", ["C10", "C05"]),
+    ("AbstractWalkModelDiGraph", r"_encode_subset_constraints", r".*", ["C10", "C05", "C04"]),     # (C04: the minimum of MinFlowDecompCycles is taken over walks that satisfy them)
     ("AbstractWalkModelDiGraph", r"_apply_safety", r".*", ["C05"]),
     ("kFlowDecomp", r".*", r".*", ["C02"]),
     ("kFlowDecompCycles", r".*", r".*", ["C02"]),
@@ -29,6 +29,8 @@ RULES = [
     ("MinSetCover", r".*", r".*", ["C15"]),
     ("MinErrorFlow", r".*", r".*", ["C16"]),
     ("SolverWrapper", r".*", r".*", ["C12"]),
+    # the product helpers carry weight * multiplicity in every cyclic model and the slack products of kMinPathError(.Cycles)
+    ("SolverWrapper", r"add_(integer|binary)_continuous_product_constraint", r".*", ["C08", "C07", "C04"]),
 ]
 
 
